@@ -65,3 +65,15 @@ Proof.
   intros builtins ops chk p i ps H. eapply search_genuine; [apply reachable_inv_b|exact H].
 Qed.
 Print Assumptions C01_reachable_search_genuine.
+
+(* ---- in terms of the live templates: [live_of b ops] is the list of (template, data) pairs the history left live ---- *)
+From WF Require Import Model.Parser Proofs.RouterRoutesP Proofs.RegistryP Proofs.ReachOpsP.
+Theorem C01_reachable_match_names_a_live_template :
+  forall b (ops : list op) chk p i ps,
+    rsearch chk (run b ops) p = Some (i, ps) ->
+    In (i_template i, i_data i) (live_of b ops)
+    /\ exists es e, parse (i_template i) = Ret es /\ In e es
+         /\ map fst ps = param_names (exp_route e) /\ fits chk (exp_route e) p (map snd ps)
+         /\ tinfo (i_template i) (i_data i) es (exp_route e) = Some i.
+Proof. exact reach_match_is_live. Qed.
+Print Assumptions C01_reachable_match_names_a_live_template.
